@@ -5,10 +5,11 @@ import nodeops
 import searches
 import c08
 import c15
+import c20
 
 REGISTRY = {'C01': nodeops, 'C02': nodeops, 'C03': nodeops,
-            'C04': searches, 'C05': searches, 'C06': searches, 'C07': searches, 'C09': searches, 'C10': searches, 'C08': c08, 'C15': c15}
-EVALUATE = {nodeops: nodeops.evaluate_ctx, searches: searches.evaluate, c08: c08.evaluate, c15: c15.evaluate}
+            'C04': searches, 'C05': searches, 'C06': searches, 'C07': searches, 'C09': searches, 'C10': searches, 'C08': c08, 'C15': c15, 'C20': c20}
+EVALUATE = {nodeops: nodeops.evaluate_ctx, searches: searches.evaluate, c08: c08.evaluate, c15: c15.evaluate, c20: c20.evaluate}
 
 
 def replay(prop, path):
